@@ -24,6 +24,7 @@ from vlib.compare import diff, Err
 from props.C07 import ExactObj, span_points, check_piece
 
 ID = 'C08'
+PYBASIS_METHODS = ['make_periodic', 'roll']   # basis.py methods re-translated and proved equal to the hand model each run
 RTOL = 1e-9
 ATOL = 1e-11
 RULE = ('periodic bases of every (order 2..6, continuity 0..p-2), minimum sizes, uniform and non-uniform, affine placement; curves, '
